@@ -20,7 +20,10 @@ def run(ctx: Ctx):
                        "(plain ids) and link types with composite ids (same unique_id in several datasets); clustering = components at "
                        "the threshold, an arbitrary partition (edges crossing clusters), or the real "
                        "cluster_pairwise_predictions_at_threshold output (threshold from metadata every other time); always >= 1 edge at "
-                       "the threshold. Non-trivial: >= 4 thresholded edges, or >= 2 with a cluster of >= 3 and an isolated record.")
+                       "the threshold. Plus histories of 2-3 calls on ONE linker (same inputs again / new threshold / new prediction table), "
+                       "thresholds incl. 0.0 and 1.0, passed explicitly, read from the clustering metadata, or passed explicitly over a "
+                       "different metadata value, with and without metadata; every call is compared with the model and a call that raises "
+                       "is reported with its history as replay. Non-trivial: >= 4 thresholded edges, or >= 2 with a cluster of >= 3 and an isolated record.")
     ctx.trusted += [
         "modelled not verified: SQL engines' join / group by / window semantics",
         "the integer relabelling for igraph (__splink__nodes_integer_mapping and back) is not modelled; X compares the final edge table",
